@@ -115,7 +115,7 @@ def all_tables(n):
 
 class Checkers(Suite):
     name = "c18.checkers"
-    case_timeout = 10
+    case_timeout = 5
 
     def cases(self, rng, tier, widen):
         out = []
